@@ -48,12 +48,13 @@ def step_behaviours(values, allow_fail=True, deterministic=False):
 def steps(values=None, *, allow_fail=True, sems=("least", "most"), allow_json_serdes=False, logs=False, deterministic=False):
     values = tagged_values() if values is None else values
     return st.builds(
-        lambda beh, sem, retry, y, sl: {"op": "step", "beh": beh, "sem": sem, "retry": retry, "yields": y, **({"sleep": sl} if sl else {})},
+        lambda beh, sem, retry, y, sl, mu: {"op": "step", "beh": beh, "sem": sem, "retry": retry, "yields": y, **({"sleep": sl} if sl else {}), **({"mutate": True} if mu else {})},
         step_behaviours(values, allow_fail, deterministic),
         st.sampled_from(list(sems)),
         retry_specs() if allow_fail else st.just({"kind": "none"}),
         st.sampled_from([0, 0, 1, 2]),
         st.sampled_from([0, 0, 0, 0.1, 0.2, 0.3]),
+        st.sampled_from([False, False, True]),
     )
 
 
@@ -160,12 +161,14 @@ def programs(  # noqa: PLR0913
 
 def wfconds(max_polls=4, fail=False):
     return st.builds(
-        lambda init, decs, trans, fa: {"op": "wfcond", "init": init, "decisions": decs + [["stop"]], "trans": trans,
-                                       **({"fail_at": fa} if (fail and fa and fa <= len(decs) + 1) else {})},
+        lambda init, decs, trans, fa, un: {"op": "wfcond", "init": init, "decisions": decs + [["stop"]], "trans": trans,
+                                           **({"fail_at": fa} if (fail and fa and fa <= len(decs) + 1) else {}),
+                                           **({"until": un} if (un is not None and trans in ("append", "count", "dict")) else {})},
         st.sampled_from([to_tagged([]), to_tagged(0), to_tagged({"a": 1}), to_tagged([1, "x"])]),
         st.lists(st.tuples(st.just("continue"), st.integers(0, 5)).map(list), max_size=max_polls - 1),
         st.sampled_from(["append", "append", "count", "dict", "same"]),
         st.sampled_from([None, None, 1, 2]),
+        st.sampled_from([None, None, 2, 3, 4]),
     )
 
 
